@@ -44,6 +44,8 @@ def run(chk):
 def run_config(chk, facts, cfg):
     from .sites import run_sites
     run_sites(chk, facts, "C01-h", cfg)
+    from .iterprog import run_iterprog
+    run_iterprog(chk, facts, "C01-i", ("font_types", "read_fonts"), 25 if cfg == "union" else 10)
     # ---- C01-a -----------------------------------------------------------------------------------
     chk.rule("C01-a", "T-ZONE: core reader modules: every Assert discharged by interval analysis; no panicking call "
                       "(unwrap/expect/panic!/range index/copy_from_slice/split_at)")
